@@ -12,6 +12,7 @@ import (
 	"encoding/hex"
 	"encoding/json"
 	"fmt"
+	"github.com/tendermint/tendermint/state/txindex"
 	"sort"
 	"sync"
 	"time"
@@ -608,8 +609,15 @@ func (n *Node) Commit(eb abci.ResponseEndBlock) BlockResult {
 		res.Txs = append(res.Txs, TxResult{Code: r.Code, Codespace: r.Codespace, Data: r.Data, Log: r.Log})
 		batch = append(batch, &tmtypes.TxResult{Height: h, Index: uint32(i), Tx: tx, Result: r})
 	}
-	for _, tr := range batch {
-		if err := n.Indexer.Index(tr); err != nil {
+	// Tendermint's indexer service hands the results of one block to the indexer as ONE batch (AddBatch)
+	if len(batch) > 0 {
+		tb := txindex.NewBatch(int64(len(batch)))
+		for _, tr := range batch {
+			if err := tb.Add(tr); err != nil {
+				panic(err)
+			}
+		}
+		if err := n.Indexer.AddBatch(tb); err != nil {
 			panic(err)
 		}
 	}
